@@ -44,7 +44,12 @@ def run_plan(case):
             nm = {"summary": "summary.txt", "vol": b.names["vol"], "led": b.names["led"]}[fo["file"]]
             tracefs.arm_fault(url, nm, op="cat", nth=fo.get("nth", 1), exc=TimeoutError)
         try:
-            tree = ceos_alos2.open_alos2(url, backend_options=dict(use_cache=False, records_per_chunk=case.get("rpc", 2)))
+            import warnings
+
+            with warnings.catch_warnings():
+                if case.get("strict_warnings"):  # the caller treats warnings as errors (python -W error, pytest filterwarnings = error)
+                    warnings.simplefilter("error")
+                tree = ceos_alos2.open_alos2(url, backend_options=dict(use_cache=False, records_per_chunk=case.get("rpc", 2)))
             proj = project.project_tree(tree)
         except BaseException as e:  # noqa: B902
             if fo and fs == "vtrace":
